@@ -19,6 +19,11 @@ Results == {0, -1}          \* Simulate::run(): 0 executed / stopped at a break,
 \* e = [id, cpu, a, b] with a, b = [ret, digest]
 Returns(e)       == e.a.ret \in Results /\ e.b.ret \in Results
 Deterministic(e) == e.a = e.b
-StepOk(e) == Returns(e) /\ Deterministic(e)
-Why(e) == IF ~Returns(e) THEN "result is neither executed nor illegal" ELSE "two runs from the same state differ"
+\* e.space = size of the simulated address space in bytes (0 when the architecture's space is
+\* not stated here); e.top = highest 64 KiB page the simulator's memory object had to allocate
+Inside(e) == e.space = 0 \/ e.top < e.space
+StepOk(e) == Returns(e) /\ Deterministic(e) /\ Inside(e)
+Why(e) == IF ~Returns(e) THEN "result is neither executed nor illegal"
+          ELSE IF ~Deterministic(e) THEN "two runs from the same state differ"
+          ELSE "memory outside the simulated address space was written"
 =============================================================================
